@@ -10,13 +10,13 @@ BASELINE_OFF = ("cd /repo && env -u PRODUCTMD_VERIF /venv/bin/python -m pytest -
 
 
 TECHNIQUE = {
-    "C01": "runtime monitoring: description->expectation oracle over generated composeinfo write/read executions (independent JSON reader, public-attribute observation)",
-    "C02": "runtime monitoring: description->expectation oracle over generated image-manifest write/read executions, per-cell conservation",
-    "C03": "runtime monitoring: add histories stepped against an executable reference model, then write/read/continue",
+    "C01": "runtime monitoring: description->expectation oracle over generated composeinfo write/read executions (independent JSON reader, public-attribute observation), every entry point and path spelling, one shard in an ASCII-locale process",
+    "C02": "runtime monitoring: description->expectation oracle over generated image-manifest write/read executions, per-cell conservation, one shard in an ASCII-locale process",
+    "C03": "runtime monitoring: add histories stepped against an executable reference model, then write/read/continue and load-into-a-used-object; one shard in an ASCII-locale process",
     "C04": "runtime monitoring: description->expectation oracle with an independent INI line reader over hostile-but-representable treeinfo/discinfo content",
     "C05": "runtime monitoring: down-converted documents of every older version + shipped fixtures, facts/idempotence monitors on the upgrade cycle",
     "C06": "runtime monitoring: single-field object corruption at arbitrary positions from a documented invalid table; validator-level raise counters (wrapped from outside)",
-    "C07": "runtime monitoring: single document corruption (value / foreign type / mangled version / missing key) with the 'never returned invalid' oracle",
+    "C07": "runtime monitoring: single document corruption (value / foreign type / mangled version / missing key) fed through loads / load(path) / load(file object); rejection oracle (declared coercion slots may normalise)",
     "C08": "runtime monitoring: digests of dumps across construction-order permutations, interpreter processes and PYTHONHASHSEED values; canonical-form readers",
     "C09": "runtime monitoring: history + executable sequential model + invariant walk after every add, four header situations, colliding documents",
     "C10": "runtime monitoring: architecture-class add sweeps with before/after snapshots; conversion conservation oracle on legacy documents with src entries",
@@ -28,7 +28,7 @@ TECHNIQUE = {
     "C16": "runtime monitoring: independent digests (hashlib one-shot + coreutils) on chunk-boundary file sizes; per-line reader oracle; add_checksum history invariant",
     "C17": "runtime monitoring: relations inside one written text read by an independent INI reader, against the description, plus a legacy-reader cross-check",
     "C18": "fault enumeration at runtime: validator failpoints at every activation of every sampled dump, byte/existence comparison, audit-hook and strace logs",
-    "C19": "runtime monitoring with dynamic binary instrumentation: callgrind instruction counts of single calls on pump families derived from harvested patterns; growth-degree rule",
+    "C19": "runtime monitoring with dynamic binary instrumentation: callgrind instruction counts of single calls on string pump families derived from harvested patterns and on structural document families; growth-degree rule; differential-loading taint scan for patterns built from document text; CPU-time stall guard",
     "C20": "runtime monitoring: enumerated compose-directory configurations with identifiable content, allowed-root/accessor oracles, audit-hook caching monitor",
 }
 
